@@ -107,12 +107,43 @@ def finish(ctx, t0, explanation, seed=0, replay_only=None):
         return k.replace("|cfgC|", "|", 1)
     new = [o for o in viols if base_key(o.key) not in my_open]
     known = [o for o in viols if base_key(o.key) in my_open]
+    # A recorded finding of the conservative audits names its site by function and expression.
+    # When that exact site is gone and the same operation (same audit, same function - closures
+    # count as their parent -, same kind, same operator / cast) shows up unbounded under another
+    # spelling, it is the recorded finding re-spelled (loop -> fold, renamed temporaries), not a
+    # new one: one such site per recorded entry whose own key no longer occurs.
+    AUDITS = ("NARROW", "COSTSUM", "TOKPANIC", "PANIC", "TRAINPANIC")
+
+    def loose(k):
+        parts = base_key(k).split("|")
+        if len(parts) < 4 or parts[0] not in AUDITS:
+            return None
+        return (parts[0], re.sub(r"::\{closure#\d+\}", "", parts[1]), parts[2], parts[3].split("(")[0])
+    present = {base_key(o.key) for o in viols}
+    stale = {}
+    for k in my_open:
+        if k not in present and loose(k):
+            stale.setdefault(loose(k), []).append(k)
+    respelled = {}
+    for o in list(new):
+        lk = loose(o.key)
+        if base_key(o.key) in respelled:
+            new.remove(o)
+            known.append(o)
+        elif lk and stale.get(lk):
+            respelled[base_key(o.key)] = stale[lk].pop(0)
+            new.remove(o)
+            known.append(o)
     os.makedirs(os.path.join(EVID, "replay"), exist_ok=True)
     printed = set()
     for o in known:
         if base_key(o.key) in printed:
             continue
         printed.add(base_key(o.key))
+        if base_key(o.key) in respelled:
+            rk = respelled[base_key(o.key)]
+            print("KNOWN-FINDING: property=%s %s (%s) [re-spelled as %s]" % (ctx.prop, rk, my_open[rk], o.key))
+            continue
         print("KNOWN-FINDING: property=%s %s (%s)" % (ctx.prop, base_key(o.key), my_open[base_key(o.key)]))
     # one KNOWN-FINDING line per distinct key
     rc = 0
